@@ -338,14 +338,15 @@ def run_scripts(pid, scripts, tag="main"):
 
 JUDGE_PAR_MIN_LINES = 150000     # files beyond this are judged in parallel, split at scenario (`reset`) boundaries
 JUDGE_WORKERS = 8
+JUDGE_TIMEOUT_S = 2400             # per driver process; the thorough tier of C18 needed > 900 s on a loaded machine
 
 
 def _run_driver(pid, path):
     with open(path) as fin:
         try:
-            p = subprocess.run([DRIVER, pid], stdin=fin, stdout=subprocess.PIPE, stderr=subprocess.PIPE, text=True, timeout=900)
+            p = subprocess.run([DRIVER, pid], stdin=fin, stdout=subprocess.PIPE, stderr=subprocess.PIPE, text=True, timeout=JUDGE_TIMEOUT_S)
         except subprocess.TimeoutExpired:
-            raise Internal("the Lean driver (judge %s) did not finish within 900 s on %s" % (pid, path))
+            raise Internal("the Lean driver (judge %s) did not finish within %d s on %s" % (pid, JUDGE_TIMEOUT_S, path))
     if p.returncode != 0:
         raise Internal("driver failed (rc=%d): %s" % (p.returncode, p.stderr[-2000:]))
     return p.stdout
